@@ -285,7 +285,11 @@ func genUEChoice(t *rapid.T, k int, taken map[uint64]bool) refamf.UEChoice {
 			u.Options |= refamf.OptDLMobilityRestr | refamf.OptICSMobilityRestr
 		}
 	}
-	if rapid.IntRange(0, 35).Draw(t, l+"late_cuc") == 0 {
+	if rapid.IntRange(0, 2).Draw(t, l+"own_prio") == 0 {
+		u.EncPrio = rapid.SampledFrom([][]int{{0, 1, 2}, {0, 2, 1}, {1, 0, 2}, {1, 2, 0}, {2, 0, 1}, {2, 1, 0}}).Draw(t, l+"enc_prio")
+		u.IntPrio = rapid.SampledFrom([][]int{{1, 2}, {2, 1}}).Draw(t, l+"int_prio")
+	}
+	if rapid.IntRange(0, 35).Draw(t, l+"late_cuc") == 23 {
 		u.CUCDelayMs = rapid.SampledFrom([]int{600, 600, 1100}).Draw(t, l+"cuc_delay_ms")
 	}
 	u.UEIP = drawIPv4(t, l+"ueip")
@@ -390,6 +394,9 @@ func scenarioClasses(sc refamf.Scenario) []string {
 		}
 		if u.CUCDelayMs > 0 {
 			cl = append(cl, "configuration-update-command-sent-late")
+		}
+		if len(u.EncPrio) > 0 {
+			cl = append(cl, fmt.Sprintf("amf-prefers-nea%d-nia%d", u.EncPrio[0], u.IntPrio[0]))
 		}
 		if u.Options&refamf.NGAPOptionMask != 0 {
 			cl = append(cl, "optional-dl-ie")
